@@ -391,7 +391,8 @@ class C05(RenderProp):
     n_quick = 3000
     n_thorough = 50000
     required_theorems = ["C05_trim_only_class", "C05_false_omitted", "C05_value_escaped", "C05_value_no_quote", "C05_true_named", "C05_order_first_occurrence", "C05_last_value_wins", "C05_class_accumulates"]
-    rule = ("random attribute lists (0-7 attributes: string literals incl. padded/empty, hostile data strings, numbers as variable/literal/expression/fraction, "
+    rule = ("random attribute lists (0-7 attributes: string literals incl. padded/empty/non-ASCII, hostile data strings, numbers as variable/literal/expression/fraction and "
+            "integer literals of up to 16 digits, "
             "booleans/null/undefined as literal and data, class as literal/variable/array/mixed array/empty/hostile and repeated, unescaped literals, concatenations) plus "
             "&attributes(obj) spreads (strings, booleans, class+id). Oracle: golang.org/x/net/html tokenizer reads the first tag back; its (name, value) list must equal the "
             "specification's list, exactly one start tag, text intact. Non-trivial: >= 2 attributes; distinct by case.")
@@ -741,7 +742,8 @@ class C09(VerdictProp):
     rule = ("random scripted histories (3-14 operations quick / 3-60 thorough) for limits N in {-1, 0..4}: starts of renders that block inside a harness-supplied template "
             "function and later exit by success / template-function error / panic, renders of a missing template, renders with an already-cancelled context, releases, "
             "cancellations of waiting or admitted renders, probes; one observation of the set of renders inside after every operation (at quiescence), every outcome, and "
-            "after the history N fresh renders started together. The Lean driver checks membership of the observations in the gate model. Non-trivial: >= 4 operations.")
+            "after the history N fresh renders started together; the limit is set directly, through the injected configuration over the pre-set 8, or after an earlier option; the "
+            "template names (gated and missing) are ASCII, non-ASCII, with blanks, or longer than 255 bytes. The Lean driver checks membership of the observations in the gate model. Non-trivial: >= 4 operations.")
     assumptions = ["Go channel, select and defer semantics are assumed (modelled as atomic steps); quiescence is reached by bounded polling"]
 
 
@@ -766,8 +768,9 @@ class C10(Prop):
     batch = 1500
     required_theorems = ["C10_names", "C10_prod_frozen", "C10_failed_load_recovers", "C10_prod_all_succeed", "C10_debug_no_hiding", "C10_naming"]
     rule = ("random directory trees below template/page (nested names, a prefix-related family a, a/b, a/b/c, ab, partial folders, decoy files with other suffixes and outside "
-            "the page directory) in both modes; half of the cases are sequential histories (explicit loads, renders of existing and missing names, file edits, broken files, "
-            "repairs, removals), half are 2-3 (thorough: 2-4) concurrent first renders (plus an explicit load in production mode) on a cold engine, interleaved at the verif yield "
+            "the page directory) in both modes; half of the cases are sequential histories (explicit complete and FILTERED loads, renders of existing and missing names, file edits incl. files replaced with a kept or older "
+            "modification time, broken files, repairs, removals, manifest edits; one in four is a directed history around a broken file met first by a complete / filtered / "
+            "render-triggered load), half are 2-3 (thorough: 2-4) concurrent first renders (plus an explicit load in production mode) on a cold engine, interleaved at the verif yield "
             "points under a random schedule. Non-trivial: >= 3 operations / threads; distinct by case.")
     assumptions = ["OS file-system semantics are assumed; the scheduler treats a thread that does not reach a yield point within 3 ms as blocked on the engine's lock "
                    "(this only affects which interleavings are explored, never the verdict)"]
@@ -924,10 +927,11 @@ class C15(Prop):
     par = 8
     required_theorems = ["C15_extract", "C15_parseFunction_total", "C15_parseFunction_tree_iff"]
     rule = ("inputs to parser.ParseFile (with and without StoreComments) and parser.ParseFunction, each run twice under recover and a per-input time bound (10 s + 0.2 ms/byte): "
-            "30% well-formed expressions of the supported subset from the type-directed C01 generator (must be accepted, and the otto AST must equal the generator's tree: "
-            "precedence and associativity), 40% mutations of a 39-snippet corpus covering every statement kind (byte insert/delete/replace/flip, truncation, chunk duplication, "
-            "splicing, case change, wrapping), 10% random bytes incl. invalid UTF-8 (base64-transported), 10% deep nesting (10-2000 quick / 20000 thorough; labelled blocks <= 310), "
-            "10% function bodies that try to leave ParseFunction's wrapper. Non-trivial: source longer than 3 bytes; distinct by source.")
+            "25% well-formed expressions of the supported subset from the type-directed C01 generator (must be accepted, and the otto AST must equal the generator's tree: "
+            "precedence and associativity), 33% mutations of a 39-snippet corpus covering every statement kind (byte insert/delete/replace/flip, truncation, chunk duplication, "
+            "splicing, case change, wrapping), 8% random bytes incl. invalid UTF-8 (base64-transported), 8% deep nesting (10-2000 quick / 20000 thorough; labelled blocks <= 310), "
+            "8% function bodies that try to leave ParseFunction's wrapper, 8% regular-expression literals assembled from 46 group / class / escape / quantifier openers and cut at any "
+            "point (four contexts), 8% sources whose last line is an inline source map (22 map shapes incl. sections without a map, bad VLQ, bad versions; mutated, truncated base64). Non-trivial: source longer than 3 bytes; distinct by source.")
     assumptions = ["the lexer and the statement/expression parser are NOT modelled: their panic-freedom and termination are exercised by this differential fuzzing only; stack "
                    "exhaustion at extreme nesting and wall-clock behaviour are runtime properties no model exhibits (nested labelled blocks parse in superlinear time)"]
 
@@ -990,7 +994,8 @@ class C13(Prop):
     n_quick = 2000
     n_thorough = 30000
     required_theorems = ["C13_sep_shape", "C13_sep_left", "C13_sep_right", "C13_sep_effect", "C13_trim_left_ws_only", "C13_trim_right_ws_only"]
-    rule = ("every generated C02 / C06 / C03 program rendered by the real engine with Engine.Debug false and true. Oracle on the two real outputs: "
+    rule = ("every generated C02 / C06 / C03 program (with its neighbour templates) rendered by the real engine with Engine.Debug false and true; one in eight also prints an "
+            "undefined variable unescaped, one in ten calls the module's asset() next to an asset manifest. Oracle on the two real outputs: "
             "equal after removing all white space, and the debug output is obtained from the production output by deleting white-space characters only. "
             "Non-trivial: document contains a block-level tag; distinct by whole document + data.")
     assumptions = ["debug-mode compilation is part of the hand-written transpiler model; its agreement with transform_tag.go is validated by the correspondence"]
